@@ -55,6 +55,10 @@ def formula(t):
                     return tr
         if op in ('is', 'is not') and (b == NONE or a == NONE):
             x = a if b == NONE else b
+            if _is_get(x):
+                # D.get(k) is None: the key is absent (tables that hold no None values)
+                f = neg(('atom', ('in', x[2][0], x[1][1])))
+                return f if op == 'is' else neg(f)
             if x[0] == 'sub' and x[1][0] == 'dictcomp':
                 # value looked up (with .get) in a dictionary built by a comprehension: absent key, not a None value
                 f = neg(('atom', ('in', x[2], x[1])))
@@ -89,7 +93,14 @@ def formula(t):
         c, a, b = t[2][0][1], t[2][0][2], t[2][0][3]
         fc = formula(c)
         return ('or', (('and', (fc, formula(('call', t[1], (a, t[2][1]), ())))), ('and', (neg(fc), formula(('call', t[1], (b, t[2][1]), ()))))))
+    if _is_get(t):
+        # D.get(k) read as a truth value: present and not empty
+        return ('and', (('atom', ('in', t[2][0], t[1][1])), ('atom', ('truthy', ('sub', t[1][1], t[2][0])))))
     return ('atom', ('truthy', t))
+
+
+def _is_get(t):
+    return t[0] == 'call' and t[1][0] == 'attr' and t[1][2] == 'get' and len(t[2]) == 1 and not t[3] and t[1][1][0] in ('name', 'attr')
 
 
 def neg(f):
